@@ -20,6 +20,9 @@ type c03Case struct {
 	Type       string `json:"type"`
 	C, P, S, L int
 	Ops        []wop `json:"ops"` // the appends (and the slicings that make their sources)
+	// Directed: a whole scripted history on a fresh world (no fixed prefix): growth of one large
+	// buffer while views of its old storage stay alive, then growth of other buffers.
+	Directed bool `json:"directed,omitempty"`
 }
 
 func c03Prefix(cs c03Case) []wop {
@@ -32,8 +35,39 @@ func c03Prefix(cs c03Case) []wop {
 }
 
 // c03Run returns failures and whether the history is inside the property's domain.
+func c03Directed(t, C, S int) c03Case {
+	return c03Case{Type: tn(t), C: C, P: S, Directed: true, Ops: []wop{
+		{K: "alloc", V: 0, A: S, B: S}, {K: "stamp", V: 0},
+		{K: "slice", V: 0, A: 0, B: S / 2},     // v1: first half of a
+		{K: "alloc", V: 2, A: 1, B: 1}, {K: "stamp", V: 2},
+		{K: "append", V: 0, W: 2},              // a grows; v1 stays on the old storage
+		{K: "alloc", V: 3, A: S / 2, B: S / 2}, {K: "stamp", V: 3},
+		{K: "append", V: 3, W: 1},              // b grows to S frames
+		{K: "stamp", V: 3}, {K: "stamp", V: 1}, {K: "stamp", V: 0},
+		{K: "alloc", V: 4, A: S / 4, B: S / 4}, {K: "stamp", V: 4},
+		{K: "append", V: 4, W: 4},              // self-append, grows
+		{K: "append", V: 4, W: 1}, {K: "stamp", V: 4}, {K: "stamp", V: 1},
+		{K: "alloc", V: 5, A: S, B: S + S/3},   // room for some, not all
+		{K: "append", V: 5, W: 1}, {K: "append", V: 5, W: 5}, {K: "stamp", V: 5}, {K: "stamp", V: 1},
+	}}
+}
+
 func c03Run(cs c03Case) (fs []F, ok bool, grew, inplace int) {
 	w := newWorld(typeByName(cs.Type), cs.C)
+	if cs.Directed {
+		for i, o := range cs.Ops {
+			if !w.enabled(o) {
+				return nil, false, 0, 0
+			}
+			if fs := w.apply(o, true); len(fs) > 0 {
+				for k := range fs {
+					fs[k].Msg = fmt.Sprintf("[%s C=%d, %d frames] directed history %v :: %s", cs.Type, cs.C, cs.P, cs.Ops[:i+1], fs[k].Msg)
+				}
+				return fs, true, w.grew, w.inplace
+			}
+		}
+		return nil, true, w.grew, w.inplace
+	}
 	desc := func() string {
 		return fmt.Sprintf("[%s C=%d root %d frames, dst=window [%d,%d)]", cs.Type, cs.C, cs.P, cs.S, cs.S+cs.L)
 	}
@@ -187,6 +221,24 @@ func init() {
 				c.Add("transitions", trans)
 				c.Add("traces_validated_against_impl", hist)
 				c.Add("large_shape_histories", hist)
+			})
+			// directed histories on large storages (several destinations; recycled blocks)
+			var dir []c03Case
+			for _, t := range []int{dyn.Int8, dyn.Uint16, dyn.Float64, dyn.Int32} {
+				for C := 1; C <= 3; C++ {
+					for _, S := range []int{8, 300, 1100, 4200, 9000} {
+						dir = append(dir, c03Directed(t, C, S))
+					}
+				}
+			}
+			c.ParallelFor(len(dir), func(i int) {
+				fs, ok, g, ip := c03Run(dir[i])
+				if ok {
+					c.Check(dir[i], true, fs)
+					c.Add("states", 1)
+					c.Add("transitions", int64(g+ip))
+					c.Add("traces_validated_against_impl", 1)
+				}
 			})
 			c.Sample(c03Case{Type: "int16", C: 2, P: 3, S: 1, L: 1, Ops: []wop{{K: "append", V: 1, W: 1}, {K: "indep", V: 1, A: 2}}})
 			c.Set("rule", fmt.Sprintf("13 element types x C in 1..3 x root of P<=%d frames x destination window (S,L) x every sequence of <=%d appends with source in {independent buffer of 0..P+2 frames, the destination itself, a second header over the destination's window, every other window of the root}; sequences whose source overlaps the region written are outside the property's domain and skipped; after every append every live view and every storage is compared with the views model, then every view is stamped in turn; non-trivial = at least one append ran; plus every pair of appends from a reduced source menu on large roots (8, 40, 300 frames) for 4 element types", maxP, depth))
